@@ -314,6 +314,16 @@ inline const char* ErrName(Manifold::Error e) {
   return (i >= 0 && i < 15) ? n[i] : "Unknown";
 }
 
+// sub-command registry: each driver file registers itself, main.cpp dispatches
+using MainFn = int (*)(int, char**);
+inline std::map<std::string, MainFn>& Registry() {
+  static std::map<std::string, MainFn> r;
+  return r;
+}
+struct Register {
+  Register(const char* name, MainFn f) { Registry()[name] = f; }
+};
+
 struct Args {
   std::map<std::string, std::string> kv;
   std::vector<std::string> pos;
